@@ -275,6 +275,13 @@ func c07r1(c *Ctx) {
 
 // sliceLiteralElems: the terms of the elements of a slice literal (in index order of the stores found).
 func sliceLiteralElems(e *Env, v ssa.Value) []string {
+	if par, ok := v.(*ssa.Parameter); ok {
+		// a (variadic) list handed down by the caller
+		if a, pe := e.actual(par); a != nil {
+			return sliceLiteralElems(pe, a)
+		}
+		return nil
+	}
 	sl, ok := v.(*ssa.Slice)
 	if !ok {
 		return nil
